@@ -4,6 +4,7 @@ from analysis.runner import rule
 from analysis.facts import AnchorError
 from analysis import terms as T
 
+THOROUGH_CONFIGS = ['release', 'nobmi2', 'engine-alone']
 LEVEL = "proof"
 EXHAUSTIVE = True
 DECIDED = ("<Score as Ord>::cmp is extracted from MIR as a 5x5 decision table over the variants of both operands (callees kind() and the derived "
